@@ -400,10 +400,16 @@ def bounded(ctx, env, real):
                   "debian_revision": [None, "1", "", "a-b", "a:b", "~1", "1 "], "debian_version": [None, "2", "b:c"],
                   "full_version": ["2.0-1", "1:2", "x:1", "", "1-", "3\n"]}
         rounds = 1500 if ctx.tier == "quick" else 12000
-        for _ in range(rounds):
+        for rnd in range(rounds):
             s0 = rng.choice(valid_pool)
+            if rnd % 3 == 0 and spec_valid("%s+h%d" % (s0, rnd)):
+                s0 = "%s+h%d" % (s0, rnd)      # a string no object was built from before: the one built now is the first
             v = Version(s0)
             model = list(spec_decomp(s0))
+            if str(v) != s0 or [v.epoch, v.upstream_version, v.debian_revision] != model:
+                fail = dict(what="a version constructed after other objects were edited does not decompose to its string", input=s0,
+                            str=str(v), got=[v.epoch, v.upstream_version, v.debian_revision])
+                break
             ops = []
             for step in range(rng.randint(1, 4)):
                 attr = rng.choice(list(values))
@@ -441,6 +447,12 @@ def bounded(ctx, env, real):
                     break
                 nontrivial.add((s0, tuple(map(tuple, ops))))
             if fail:
+                break
+            # another object built from the same string afterwards is that string again, whatever happened to the first one
+            again = Version(s0)
+            if str(again) != s0 or [again.epoch, again.upstream_version, again.debian_revision] != list(spec_decomp(s0)):
+                fail = dict(what="a second object built from the same string is affected by the edits of the first", input=s0,
+                            operations_on_the_first=ops, str=str(again))
                 break
     ctx.bounded("B-14 constructor / decomposition / component assignment histories", evals, len(nontrivial),
                 "all strings of length <= %d over the minterm alphabet of re_valid_version and VALID (one representative per "
